@@ -49,6 +49,9 @@ func NewCompositeSequenceDFA(re *syntax.Regexp) *CompositeSequenceDFA {
 		if p.minMatch == 0 {
 			return nil // Star quantifiers need more complex handling
 		}
+		if p.minMatch > 1 {
+			return nil // {n,} with n >= 2 requires character counting (DFA assumes minMatch=1)
+		}
 		if p.maxMatch > 0 {
 			return nil // Bounded max requires character counting
 		}
@@ -420,6 +423,9 @@ func IsCompositeSequenceDFAPattern(re *syntax.Regexp) bool {
 	// Check all parts have minMatch >= 1 and maxMatch == 0 (unbounded)
 	for _, p := range parts {
 		if p.minMatch == 0 {
+			return false
+		}
+		if p.minMatch > 1 {
 			return false
 		}
 		if p.maxMatch > 0 {
